@@ -25,6 +25,8 @@ var c17Cmds = [][]string{
 	{"print"}, {"summary", "2021/01/24"},
 	{"report", "totals"}, {"report", "quantity"}, {"report", "quantity", "--desc"}, {"report", "unresolved"}, {"report", "element-total", "x"},
 	{"stats"}, {"lint", "log.yaml"}, {"lint", "food.yaml"}, {"lint", "bad.yaml"}, {"lint", "--silent", "bad.yaml"},
+	// further arguments after the file with findings; a file whose first lines come before any heading
+	{"lint", "--silent", "bad.yaml", "food.yaml"}, {"lint", "bad.yaml", "log.yaml"}, {"lint", "stray.yaml"}, {"lint", "-s", "stray.yaml"},
 }
 
 var c17UnshareOnce struct {
@@ -75,8 +77,11 @@ func c17Files(r *core.Ctx, idx int, big bool) map[string]string {
 	if big {
 		bad = strings.Repeat("2021/01/24:\n  ok: 1\n  broken line number\n  also: 1,5\n", 300)
 	}
-	return map[string]string{"food.yaml": gen.RenderBook(b, nil), "log.yaml": gen.RenderLog(l, "2006/01/02", nil), "bad.yaml": bad}
+	return map[string]string{"food.yaml": gen.RenderBook(b, nil), "log.yaml": gen.RenderLog(l, "2006/01/02", nil), "bad.yaml": bad, "stray.yaml": c17Stray}
 }
+
+// entry lines before the first heading belong to no record
+const c17Stray = "  stray: 1\n- another: 2\n\tthird: 3\n2021/01/24:\n  apple: 1\n"
 
 func runC17(c *core.Ctx) {
 	c.SetRule("faults: every report command shape (31: reg in all variants, bal x3 with/without -s, csv x3, print, summary, report x4, stats, lint with and without findings) x output sink failing from byte offset k: every k in 0..len for reports <= 3000 bytes (exhaustive), for reports of several bufio buffers and for inputs whose names are longer than one output buffer (4096..9000 bytes) k in {0, 1, multiples of 4096 -1/0/+1, len-1, 64 PRNG-chosen offsets}; plus the real binary (incl. gen man/markdown) with stdout = /dev/full, a pipe closed before the first write / at once / after 4 KiB, a regular file opened read-only, a file on a full tmpfs, a file under ulimit -f. Invariants on the counting sink: the sink returned an error to a Write => non-zero exit; exit 0 => the complete report was accepted. Non-trivial = run in which the sink did return an error (counted by the wrapper); distinct = hash(files, argv, k).")
@@ -102,13 +107,13 @@ func runC17(c *core.Ctx) {
 	worlds = append(worlds, map[string]string{
 		"food.yaml": "a/b:\n  x: 1\n  " + long(5000, "e") + ": 2\n\n" + long(4096, "r") + ":\n  x: 3\n",
 		"log.yaml":  "2021/01/24:\n  " + long(5000, "u") + ": 1\n  aa: 2\n  " + long(8200, "v") + ": 3\n  a/b: 1\n  " + long(4096, "r") + ": 2\n",
-		"bad.yaml":  "2021/01/24:\n  " + long(6000, "m") + "\n  ok: 1\n  " + long(9000, "n") + ": x\n",
+		"bad.yaml":  "2021/01/24:\n  " + long(6000, "m") + "\n  ok: 1\n  " + long(9000, "n") + ": x\n", "stray.yaml": c17Stray,
 	})
 	// the same with the long names sorting first (the first line of a sorted report bypasses the buffer)
 	worlds = append(worlds, map[string]string{
 		"food.yaml": long(4200, "0") + ":\n  x: 3\n  " + long(4300, "1") + ": 2\n\nzz/b:\n  x: 1\n",
 		"log.yaml":  "2021/01/24:\n  " + long(4200, "0") + ": 2\n  00" + long(5000, "u") + ": 1\n  zz/b: 2\n  x: 1\n",
-		"bad.yaml":  "2021/01/24:\n  " + long(6000, "m") + "\n",
+		"bad.yaml":  "2021/01/24:\n  " + long(6000, "m") + "\n", "stray.yaml": c17Stray,
 	})
 	long2Idx := len(worlds) - 1
 	longIdx := len(worlds) - 2
